@@ -67,6 +67,35 @@ def low_rank_points(r, N, D, rank, amp=4):
     return [[off[a] + sum(coef[i][k] * basis[k][a] for k in range(rank)) for a in range(D)] for i in range(N)]
 
 
+def anisotropic_points(r, N, D, rank, steps):
+    """N points of exact rank `rank` (<= D) whose principal directions have very different extents: integer coefficients
+    in [-8, 8] along `rank` axes, axis k shrunk by the power of two 2^-(steps[0]+…+steps[k-1]) (so the data stay exact
+    dyadics and the retained eigenvalues of the Gram / covariance matrix differ by factors ~4^step: strips, slabs);
+    the axes are then placed on random coordinates with random signs, and one pair is rotated by the exact scaled
+    rotation (x+y, x-y), which keeps all ratios"""
+    coef = rand_int_matrix(r, N, rank, -8, 8)
+    for k in range(rank):          # every axis has extent: two opposite extreme points
+        coef[r.below(N)][k] = 8
+        coef[r.below(N)][k] = -8
+    scale, e = [], 0
+    for k in range(rank):
+        scale.append(Fraction(1, 2 ** e))
+        e += steps[k] if k < len(steps) else 0
+    perm = r.shuffle(list(range(D)))[:rank]
+    sign = [r.choice([-1, 1]) for _ in range(rank)]
+    off = [Fraction(r.range(-3, 9)) for _ in range(D)]
+    pts = []
+    for i in range(N):
+        row = [Fraction(0)] * D
+        for k in range(rank):
+            row[perm[k]] = sign[k] * coef[i][k] * scale[k]
+        pts.append(row)
+    if D >= 2 and r.chance(1, 2):
+        a, b = r.shuffle(list(range(D)))[:2]
+        pts = [[(row[a] + row[b]) if c == a else (row[a] - row[b]) if c == b else row[c] for c in range(D)] for row in pts]
+    return [[v + o for v, o in zip(row, off)] for row in pts]
+
+
 def sym_dist_matrix(r, N, kind):
     """symmetric, zero diagonal; kind: int (small integers), dyadic (multiples of 1/8)"""
     M = [[Fraction(0)] * N for _ in range(N)]
